@@ -85,6 +85,9 @@ pub struct Cfg {
     pub stall_budget: u32,
     /// upper bound of one stall in ns
     pub stall_max_ns: u64,
+    /// source files (substrings of the path) in which stalls are made much more likely and long:
+    /// aims the fault at windows inside particular operations
+    pub stall_focus: &'static [&'static str],
     /// virtual time that passes with every schedule point (0 = infinitely fast CPU)
     pub tick_ns: u64,
     /// allocator fault mode (see alloc.rs): 0 system, 1 LIFO reuse, 2 quarantine + poison
@@ -109,6 +112,7 @@ impl Cfg {
             stall_ppm: 0,
             stall_budget: 0,
             stall_max_ns: 0,
+            stall_focus: &[],
             tick_ns: 0,
             alloc_mode: 0,
             cas_weak_pm: 0,
@@ -220,6 +224,24 @@ pub static ENGINE: Engine = Engine {
 
 /// wall-clock liveness of the engine itself, bumped at every step (read by the watchdog)
 pub static HEARTBEAT: AtomicU64 = AtomicU64::new(0);
+
+/// one injected stall: where (code site of the schedule point at which the thread was put to
+/// sleep; the operation named there had NOT yet been executed), when and for how long
+#[derive(Clone, Debug)]
+pub struct StallRec {
+    pub step: u64,
+    pub vt: u64,
+    pub dur: u64,
+    pub file: &'static str,
+    pub line: u32,
+    pub op: &'static str,
+}
+/// kept outside the engine lock so that diagnostics callbacks may read it
+static STALLS: std::sync::Mutex<Vec<StallRec>> = std::sync::Mutex::new(Vec::new());
+
+pub fn stall_log() -> Vec<StallRec> {
+    STALLS.lock().map(|g| g.clone()).unwrap_or_default()
+}
 
 thread_local! {
     static TID: Cell<usize> = const { Cell::new(usize::MAX) };
@@ -811,7 +833,7 @@ impl Engine {
     }
 
     /// maybe stall the caller (virtual sleep injected by the fault plan)
-    fn maybe_stall(&self, g: &mut G<'_>, me: usize) -> bool {
+    fn maybe_stall(&self, g: &mut G<'_>, me: usize, op: u8, loc: Loc) -> bool {
         let inner = g.as_mut().unwrap();
         let d = if inner.cfg.strategy == Strategy::Replay {
             match inner.cfg.replay.as_ref().unwrap().faults.get(&(inner.step, F_STALL)) {
@@ -822,12 +844,26 @@ impl Engine {
             if inner.stalls_left == 0 || inner.cfg.stall_ppm == 0 {
                 return false;
             }
-            if !inner.rng.chance(inner.cfg.stall_ppm as u64, 1_000_000) {
+            let focus = !inner.cfg.stall_focus.is_empty() && inner.cfg.stall_focus.iter().any(|f| loc.file().contains(f));
+            let ppm = if focus { (inner.cfg.stall_ppm as u64 * 40).min(100_000) } else { inner.cfg.stall_ppm as u64 };
+            if !inner.rng.chance(ppm, 1_000_000) {
                 return false;
             }
             inner.stalls_left -= 1;
-            // log-uniform between 1us and stall_max
             let max = inner.cfg.stall_max_ns.max(1000);
+            if focus && inner.rng.chance(1, 2) {
+                // a long one
+                let d = inner.rng.range(max / 3, max);
+                inner.record_fault(F_STALL, d);
+                if let Ok(mut l) = STALLS.lock() {
+                    l.push(StallRec { step: inner.step, vt: inner.now, dur: d, file: loc.file(), line: loc.line(), op: op_name(op) });
+                }
+                let th = &mut inner.th[me];
+                th.st = St::Blocked(Why::Sleep);
+                th.wake_at = inner.now + d;
+                return true;
+            }
+            // log-uniform between 1us and stall_max
             let bits = 64 - (max / 1000).leading_zeros() as u64;
             let e = inner.rng.below(bits + 1);
             let lo = 1000u64 << e.saturating_sub(1).min(40);
@@ -835,6 +871,9 @@ impl Engine {
             inner.rng.range(lo.min(hi), hi)
         };
         inner.record_fault(F_STALL, d);
+        if let Ok(mut l) = STALLS.lock() {
+            l.push(StallRec { step: inner.step, vt: inner.now, dur: d, file: loc.file(), line: loc.line(), op: op_name(op) });
+        }
         let th = &mut inner.th[me];
         th.st = St::Blocked(Why::Sleep);
         th.wake_at = inner.now + d;
@@ -851,7 +890,7 @@ impl Engine {
             return;
         }
         self.step(&mut g, me, op, loc);
-        self.maybe_stall(&mut g, me);
+        self.maybe_stall(&mut g, me, op, loc);
         self.reschedule(g, me, yield_hint);
     }
 
